@@ -324,7 +324,11 @@ def simk_script(sc, rng=None):
             add("%s c%d" % (k.upper(), st[1]))
         elif k == "reply":
             _, c, kk, key, value = st
-            add("REPLY c%d %d %s" % (c, kk, L.hexs(jtext(key) + b":" + jtext(value))))
+            # kk: the k-th routed request; a list/tuple of ks = the same answer for all of them in ONE JSON array
+            if isinstance(kk, (list, tuple)):
+                add("REPLY c%d %s %s arr" % (c, ",".join(str(x) for x in kk), L.hexs(jtext(key) + b":" + jtext(value))))
+            else:
+                add("REPLY c%d %d %s" % (c, kk, L.hexs(jtext(key) + b":" + jtext(value))))
         elif k == "advance":
             add("ADVANCE %d" % st[1])
         elif k == "wmode":
